@@ -179,8 +179,8 @@ class ExprGen:
                 objs.append(o)
             if r.random() < self.symbols:
                 so = {'t': 'sym0', 'name': r.choice(['alpha', 'omega'])}
-                if r.random() < 0.4:      # powers of a plain symbol
-                    so['exp'] = r.choice([2, 2, 3])
+                if r.random() < 0.45:     # powers of a plain symbol (also in the
+                    so['exp'] = r.choice([2, 2, 3, -1, -2])     # denominator)
                 objs.append(so)
                 if r.random() < 0.25:
                     objs.append({'t': 'sym0', 'name': 'alpha'
